@@ -364,6 +364,12 @@ _NOT_NONE_CALLS = {"bool", "isinstance", "issubclass", "len", "int", "str", "byt
 # filled by the interpreter from the module under analysis (return annotations `-> bool|int|str|bytes|float`)
 NON_OPTIONAL_RETURNS: set = set()
 # attributes that always hold a value of a plain type
+_BUILTIN_CALLABLES = {"int", "str", "float", "bytes", "bool", "list", "dict", "tuple", "set", "frozenset", "bytearray", "len", "repr", "abs", "sorted", "min", "max", "sum", "type",
+                      "isinstance", "issubclass", "iter", "next", "range", "enumerate", "zip", "map", "filter", "print", "hash", "id", "callable", "getattr", "setattr", "hasattr",
+                      "b64decode", "b64encode", "isoparse", "deepcopy"}
+MODULE_DEFS: set = set()        # qualified names defined in the module under analysis (filled by the interpreter)
+METHOD_NAMES: set = set()       # names defined as methods of some class of the module
+DATA_ATTR_NAMES: set = set()    # names that are (also) assigned as data attributes / class variables
 NON_NONE_ATTRS = {"_serialized_on_wire", "_unknown_fields"}
 
 
@@ -387,6 +393,14 @@ def never_none(s: Sym) -> bool:
     if s[0] == "a" and s[2] in NON_NONE_ATTRS:
         return True
     if s in FUNCTION_REFS:
+        return True
+    if s[0] == "n" and (s[1] in _BUILTIN_CALLABLES or s[1] in MODULE_DEFS):
+        return True         # a builtin function / type, or a function / class defined at the top of the analysed module
+    if s[0] == "a" and s[1][0] == "n" and f"{s[1][1]}.{s[2]}" in MODULE_DEFS:
+        return True         # a method looked up on a class of the analysed module
+    if s[0] == "a" and s[2] in METHOD_NAMES and s[2] not in DATA_ATTR_NAMES:
+        return True         # an attribute that is only ever a method in the analysed module (x.from_dict, x.from_string)
+    if s[0] == "opaque" and s[1].startswith("lambda"):
         return True
     if s[0] in ("tuple", "list", "set", "dictd", "fstr"):
         return True
